@@ -238,6 +238,61 @@ Theorem c14_attempts_counted :
       <= (if is_lazy then 0 else 1) + N.of_nat (count_calls h).
 Proof. exact attempts_counted. Qed.
 
+(* ---------------------------------------------------------------- poll_ready more than once *)
+(* tower's contract allows poll_ready to be called any number of times before `call`; tower's p2c
+   Balance (Channel::balance_list / balance_channel) polls the chosen endpoint again right before
+   dispatch.  For ALL states and worlds, with NO assumption about hyper:
+   once Reconnect::poll_ready has answered Ready(Ok), every further poll_ready (any number [n],
+   any fuel) answers Ready(Ok) and changes neither Reconnect nor the world - in particular the
+   connector is not invoked, no new attempt is started *)
+Theorem c14_repeated_poll_ready_idempotent :
+  forall cpr fuel rc w rc' w',
+    poll_ready cpr fuel rc w = (rc', w', PrReadyOk) ->
+    forall n fuel2, ready_n cpr (S fuel2) n rc' w' = (rc', w', PrReadyOk).
+Proof. intros cpr fuel rc w rc' w' H n fuel2. eapply ready_n_stable; exact H. Qed.
+
+(* a connect failure parked by poll_ready (`self.error = Some(e)`): Reconnect is Idle; however often
+   poll_ready is called, the answer is Ready(Ok) with state and world untouched; the next `call`
+   receives exactly that error; afterwards no error is parked and the state is Idle, so the error
+   cannot be handed out again (a `call` without a new poll_ready is the panic of Reconnect::call,
+   a new poll_ready starts a fresh attempt) *)
+Theorem c14_parked_error_is_stable :
+  forall cpr fuel rc w rc' w' e,
+    rc_error rc = None ->
+    poll_ready cpr fuel rc w = (rc', w', PrReadyOk) -> rc_error rc' = Some e ->
+    rc_state rc' = Idle /\
+    (forall n fuel2, ready_n cpr fuel2 n rc' w' = (rc', w', PrReadyOk)) /\
+    call rc' = (set_error rc' None, CoErr e) /\
+    rc_error (set_error rc' None) = None /\ rc_state (set_error rc' None) = Idle /\
+    snd (call (set_error rc' None)) = CoPanic.
+Proof. exact parked_error_is_stable. Qed.
+
+(* Buffer worker + Balance over one endpoint ([n] re-polls before every call) serves a request
+   exactly like the plain Buffer worker - same Reconnect, same world, same outcome - except that a
+   poll_ready ERROR (only a broken connector produces one on a lazy endpoint) evicts the endpoint
+   instead of failing the worker *)
+Theorem c14_balanced_serve_is_plain_serve :
+  forall cpr sreq n fuel ch w,
+    serve_again cpr sreq n fuel ch w = evict (serve cpr sreq fuel ch w).
+Proof. exact serve_again_eq. Qed.
+
+(* hence, for every history, the calls on a balanced channel with one endpoint have the records
+   of the plain lazy channel: c14_call_definite, c14_recovers_without_rebuild,
+   c14_error_reported_once, c14_attempts_counted .. speak about balanced channels too
+   ([run_balanced] is what kind balance.list1 evaluates against the real Channel::balance_list) *)
+Theorem c14_balanced_channel_is_lazy_channel :
+  forall cpr sreq, stack_contract cpr sreq ->
+  forall n fuel lat prl net0, enough_fuel lat prl fuel -> forall h,
+    run_balanced_with cpr sreq n fuel lat prl net0 h = r_calls (run_with cpr sreq fuel true lat prl net0 h).
+Proof. exact balanced_run_eq. Qed.
+
+Example c14_balanced_example :
+  obs_balance_codes 1 (Down 2) [Call; Call; Env ConnectSucceeds; Call; Env ConnectionDropped; Env (ConnectFails 2); Call; Env ConnectSucceeds; Call]
+  = Nd [Nn 14; Nn 14; Nn 0; Nn 14; Nn 0]
+  /\ obs_balance_set_codes [true; true] [false; false] [BCall; BUp 1; BCall; BDown 1; BCall; BRemove 0; BInsert 0; BCall]
+  = Nd [Nn 14; Nn 0; Nn 14; Nn 14].
+Proof. split; vm_compute; reflexivity. Qed.
+
 (* ---------------------------------------------------------------- observation: broken connector *)
 (* a request that needs the connector while its poll_ready errs gets that error (a ConnectError,
    UNAVAILABLE) and the Buffer worker is failed; the connector is not invoked *)
@@ -360,3 +415,6 @@ Print Assumptions c14_recovers_without_rebuild.
 Print Assumptions c14_error_reported_once.
 Print Assumptions c14_attempts_counted.
 Print Assumptions c14_handshake_failure_outcome.
+Print Assumptions c14_repeated_poll_ready_idempotent.
+Print Assumptions c14_parked_error_is_stable.
+Print Assumptions c14_balanced_channel_is_lazy_channel.
